@@ -893,7 +893,9 @@ def check(run: Run):
         "outcome of a step depends only on the record (its name), not on the schedule",
         "completion order is forced with gate files; consumption is observed at the data store's write methods in the master",
         "dispatch model (FIFO queue, at most W running) is loky's; MPI executor and progress-bar UI are not covered",
-        "apply_to argument errors (empty input, duplicate identifiers) and resuming into a non-empty store are outside the model",
+        "identifiers: the naming schemes of ComposedApp.tla (plain; one identifier a proper suffix / prefix of the others, short one first "
+        "or last; identifiers containing dots) are explored for n=3 (serial in quick; also W=2,3 and forced orders in thorough) on directory "
+        "and sqlite stores; design counterexample MC_ComposedApp_retire.cfg (retire by suffix) violates Accounted",
         "content equality for write_db records is judged on the decoded object, not the pickle byte stream",
         "resuming (ComposedAppRuns.tla) follows the apply_to docstring ('if a member already exists ... it is skipped'); which members count "
         "is the store's: a DataStoreDirectory retries inputs that have a not-completed record, a DataStoreSqlite keeps them (it finds the "
